@@ -187,7 +187,9 @@ Definition ex_cfg (wbs : N) : config := mkConfig wbs u64_max None None false.
 Definition ex_msgs : list message :=
   [MText []; MText (repeat 65 125); MBinary (repeat 200 126); MPing (repeat 1 125); MPong []; MBinary [0; 255; 7]].
 Definition ex_keys : list key := [(1, 2, 3, 4); (250, 251, 252, 253); (0, 0, 0, 0); (9, 8, 7, 6)].
-Definition ex_ww (n : N) : world := mkWorld [] (repeat (WrAccept n) 200) [FlOk] ex_keys [].
+(* two transport flushes: the write after the pong flushes (the pong's own write call moved it into
+   out_buffer and set unflushed_additional), then the final flush *)
+Definition ex_ww (n : N) : world := mkWorld [] (repeat (WrAccept n) 200) [FlOk; FlOk] ex_keys [].
 Definition ex_drip (bs : bytes) : list rd_out := flat_map (fun b => [RdData [b]; RdErr WouldBlock]) bs.
 Definition ex_wr (rds : list rd_out) : world :=
   mkWorld rds (repeat (WrAccept 3) 100) (repeat FlOk 10) [(7, 7, 7, 7)] [].
